@@ -216,7 +216,8 @@ func c15Oracle(in c15In) probe.Outcome {
 	if len(in.Key) != 32 {
 		labels = append(labels, "key-len!=32")
 	}
-	return probe.Outcome{NonTrivial: padded || len(e.Attrs) >= 3 || in.RefBuilt, Labels: labels}
+	return probe.Outcome{NonTrivial: padded || len(e.Attrs) >= 3 || in.RefBuilt, Labels: labels,
+		Counts: map[string]int{"single-octet-alterations-that-still-decode": decoded, "single-octet-alterations-tried": (len(w) + step - 1) / step}}
 }
 
 func c15Gen(t *rapid.T) c15In {
